@@ -107,6 +107,26 @@ func buildC17Shared(g *model.Gen) (*c17Shared, error) {
 			s.evKeys = append(s.evKeys, k.Pub)
 		}
 	}
+	// a shared decoded Evidence whose signature is the DER encoding of a real one
+	// (it does not verify; verifying it concurrently must neither race nor differ)
+	if env, perr := refcose.Parse(s.tokens[0]); perr == nil && len(env.Signature) == 64 {
+		derInt := func(b []byte) []byte {
+			for len(b) > 1 && b[0] == 0 {
+				b = b[1:]
+			}
+			if b[0]&0x80 != 0 {
+				b = append([]byte{0}, b...)
+			}
+			return append([]byte{0x02, byte(len(b))}, b...)
+		}
+		body := append(derInt(env.Signature[:32]), derInt(env.Signature[32:])...)
+		der := append([]byte{0x30, byte(len(body))}, body...)
+		if d, derr := psatoken.DecodeEvidenceFromCOSE(sign1Bytes(env.ProtectedBS, nil, env.Payload, der)); derr == nil {
+			s.ev = append(s.ev, d)
+			s.enames = append(s.enames, "evidence:decoded:DER-signature")
+			s.evKeys = append(s.evKeys, s.tokKeys[0])
+		}
+	}
 	return s, nil
 }
 
@@ -189,7 +209,7 @@ func c17Op(s *c17Shared, r *rand.Rand, gid int, clock func() int64) c17Event {
 		}
 	default: // operations on PRIVATE objects
 		j := r.Intn(len(s.wires))
-		switch r.Intn(9) {
+		switch r.Intn(10) {
 		case 0:
 			ev.kind = "private:DecodeClaimsFromCBOR+read"
 			w := s.wires[j]
@@ -261,6 +281,36 @@ func c17Op(s *c17Shared, r *rand.Rand, gid int, clock func() int64) c17Event {
 				env, perr := refcose.Parse(tok)
 				want, _ := psatoken.EncodeClaimsToCBOR(x)
 				return fmt.Sprintf("verify=%v independent=%v payload-ok=%v", e.Verify(k.Pub) == nil, perr == nil && env.Verify(k.Pub) == nil, perr == nil && bytes.Equal(env.Payload, want))
+			}
+		case 8:
+			ev.kind = "private:every decode entry point incl. deprecated aliases"
+			w, d := s.wires[j], s.docs[j]
+			t := s.tokens[r.Intn(len(s.tokens))]
+			fn = func() string {
+				out := ""
+				for _, f := range []func([]byte) (psatoken.IClaims, error){psatoken.DecodeClaimsFromCBOR, psatoken.DecodeAndValidateClaimsFromCBOR} {
+					x, err := f(w)
+					out += fmt.Sprint(err == nil)
+					if err == nil {
+						o := obs.Observe(x)
+						out += o.String()
+					}
+				}
+				for _, f := range []func([]byte) (psatoken.IClaims, error){psatoken.DecodeClaimsFromJSON, psatoken.DecodeAndValidateClaimsFromJSON, psatoken.DecodeJSONClaims, psatoken.DecodeUnvalidatedJSONClaims} {
+					x, err := f(d)
+					out += fmt.Sprint(err == nil)
+					if err == nil {
+						o := obs.Observe(x)
+						out += o.String()
+					}
+				}
+				e1, err1 := psatoken.DecodeEvidenceFromCOSE(t)
+				e2 := &psatoken.Evidence{}
+				err2 := e2.UnmarshalCOSE(t)
+				out += fmt.Sprint(err1 == nil, err2 == nil, e1 != nil && e1.Claims != nil)
+				_, err3 := psatoken.DecodeClaimsFromJSON([]byte(`{"psa-profile":"PSA_IOT_PROFILE_1","eat-profile":"http://arm.com/psa/2.0.0"}`))
+				_, err4 := psatoken.DecodeClaimsFromJSON([]byte(`{"eat-profile":"http://example.com/unregistered"}`))
+				return out + fmt.Sprint(err3 == nil, err4 == nil)
 			}
 		case 7:
 			// the embedding-aware codec (extension profiles) under concurrency,
